@@ -55,23 +55,35 @@ structure RequestSpec (c : Nat) (req : Json) (x : Ctx) (res : Ctx × Bool) : Pro
   out : ∃ pre fin, res.1.out = fin ++ pre ++ x.out ∧ (∀ o ∈ pre, obsMethod o = true) ∧
     ((fin = [] ∧ res.2 = true ∧ (Answerable req → ∃ o ∈ pre, obsAccepted o = true)) ∨
      (∃ id resp b, fin = [.send c resp b] ∧ res.2 = b ∧ req.getItem (k "id") = some id ∧ idOk id = true ∧
-        WellFormed id resp ∧ ∀ o ∈ pre, obsAccepted o = false))
+        WellFormed id resp ∧ ∀ o ∈ pre, obsAccepted o = false)) ∧
+    ((conns x.st.peers).Nodup →
+      respCount (fin ++ pre) + pendingA res.1.st.peers ≤ pendingA x.st.peers + ansN req)
   routes : RouteStep c x.st.peers res.1.st.peers
 
 theorem sendResponse_spec {c : Nat} {req : Json} {x : Ctx} {res : Ctx × Option Json}
     (h : MethodSpec c req x res) : RequestSpec c req x (sendResponse res.1 c res.2) := by
-  obtain ⟨⟨pre, hout, hm, hsome, hnone⟩, hresp, hrt⟩ := h
+  obtain ⟨⟨pre, hout, hm, hsome, hnone⟩, hresp, hrt, hpend⟩ := h
+  have hz := respCount_of_method hm
   cases hr : res.2 with
   | none =>
     simp only [sendResponse]
-    exact ⟨⟨pre, [], by simpa using hout, hm, Or.inl ⟨rfl, rfl, hnone hr⟩⟩, hrt⟩
+    refine ⟨⟨pre, [], by simpa using hout, hm, Or.inl ⟨rfl, rfl, hnone hr⟩, fun hn => ?_⟩, hrt⟩
+    have := hpend hn
+    simp only [hr, Option.isSome_none, Bool.false_eq_true, if_false] at this
+    simp only [List.nil_append, hz]
+    omega
   | some j =>
     simp only [sendResponse, send_eq]
     rcases hresp with hn | ⟨id, j', hid, hok, hj, hwf⟩
     · rw [hr] at hn; cases hn
     · rw [hr] at hj; cases hj
-      refine ⟨⟨pre, [.send c j _], by simp [hout], hm, Or.inr ⟨id, j, _, rfl, rfl, hid, hok, hwf, ?_⟩⟩, hrt⟩
-      exact hsome (by simp [hr])
+      refine ⟨⟨pre, [.send c j _], by simp [hout], hm, Or.inr ⟨id, j, _, rfl, rfl, hid, hok, hwf, ?_⟩,
+        fun hn => ?_⟩, hrt⟩
+      · exact hsome (by simp [hr])
+      · have := hpend hn
+        simp only [hr, Option.isSome_some, if_true] at this
+        simp only [List.cons_append, List.nil_append, respCount, hz, hwf.isResponse, if_true]
+        omega
 
 /-- `parseJsonRpc` on an object with a "method" member, or with none of "method", "result", "error" -/
 theorem parseJsonRpc_request (cfg : Config) (x : Ctx) (c : Nat) (p : Peer) (req : Json)
